@@ -16,6 +16,11 @@ import (
 type c05Scenario struct {
 	Rules  string `json:"rules"`
 	Config string `json:"config"`
+	// Layout "deleted": the pint ci repository has, on main, rules/dep.yml (a recording rule), rules/0.yml (Rules, using it) and
+	// rules/old.yml; the feature branch DELETES rules/dep.yml (rule/dependency: a report anchored on a file that no longer
+	// exists), renames rules/old.yml and adds Extra as rules/extra.yml
+	Layout string `json:"layout,omitempty"`
+	Extra  string `json:"extra,omitempty"`
 }
 
 type c05Run struct {
@@ -149,6 +154,24 @@ func runC05(args []string) int {
 		c05Scenario{Rules: hdr + "  - alert: A\n    expr: up == 0\n    bogus_key: 1\n", Config: nocfg},                                                       // parse error: Fatal
 		c05Scenario{Rules: hdr + "  - alert: A\n    expr: up\n    for: 0s\n  - alert: B\n    expr: sum(up) > 0\n    annotations:\n      summary: \"{{ $labels.job }}\"\n", Config: nocfg},
 	)
+	// the SAME issue (same check, same summary, same diagnostic text) reported with DIFFERENT severities on two rules: the
+	// reports are duplicates of each other for everything but the severity; both orders (lower first / higher first)
+	for i, lo := range c05Sevs {
+		for _, hi := range c05Sevs[i+1:] {
+			for _, order := range [][2]string{{lo, hi}, {hi, lo}} {
+				grid = append(grid, c05Scenario{Rules: hdr + "  - record: r0\n    expr: up\n  - record: r1\n    expr: up\n",
+					Config: fmt.Sprintf("rule {\n  match {\n    name = \"r0\"\n  }\n  label \"team\" {\n    required = true\n    severity = %q\n  }\n}\nrule {\n  match {\n    name = \"r1\"\n  }\n  label \"team\" {\n    required = true\n    severity = %q\n  }\n}\n", order[0], order[1])})
+			}
+		}
+	}
+	// the same, across two files (path is part of the sort order) is covered by the generated scenarios with several rules;
+	// pint ci on a branch that deletes a whole file whose rule is still used, and renames another one
+	uses := hdr + "  - alert: UsesDep\n    expr: dep:rec > 0\n    for: 1m\n"
+	grid = append(grid,
+		c05Scenario{Rules: uses, Config: nocfg, Layout: "deleted"},
+		c05Scenario{Rules: uses, Config: "rule {\n  report {\n    comment = \"r\"\n    severity = \"info\"\n  }\n}\n", Layout: "deleted",
+			Extra: hdr + "  - record: extra\n    expr: sum(up)\n"},
+	)
 	scen = append(grid, scen...)
 
 	var runs []c05Run
@@ -171,13 +194,30 @@ func runC05(args []string) int {
 		cd := filepath.Join(dir, "ci")
 		writeFile(filepath.Join(cd, "README"), "x\n")
 		git(cd, "init", "-q", "-b", "main", ".")
-		git(cd, "add", "README")
-		git(cd, "commit", "-q", "-m", "init")
-		git(cd, "checkout", "-q", "-b", "feature")
-		writeFile(filepath.Join(cd, "rules", "0.yml"), scen[si].Rules)
-		writeFile(filepath.Join(cd, ".pint.hcl"), scen[si].Config)
-		git(cd, "add", ".")
-		git(cd, "commit", "-q", "-m", "add rules")
+		if scen[si].Layout == "deleted" {
+			writeFile(filepath.Join(cd, "rules", "dep.yml"), "groups:\n- name: g\n  rules:\n  - record: dep:rec\n    expr: sum(foo) without(instance)\n")
+			writeFile(filepath.Join(cd, "rules", "old.yml"), "groups:\n- name: g\n  rules:\n  - record: mv:rec\n    expr: sum(bar)\n")
+			writeFile(filepath.Join(cd, "rules", "0.yml"), scen[si].Rules)
+			writeFile(filepath.Join(cd, ".pint.hcl"), scen[si].Config)
+			git(cd, "add", ".")
+			git(cd, "commit", "-q", "-m", "init")
+			git(cd, "checkout", "-q", "-b", "feature")
+			git(cd, "rm", "-q", "rules/dep.yml")
+			git(cd, "mv", "rules/old.yml", "rules/new.yml")
+			if scen[si].Extra != "" {
+				writeFile(filepath.Join(cd, "rules", "extra.yml"), scen[si].Extra)
+			}
+			git(cd, "add", ".")
+			git(cd, "commit", "-q", "-m", "delete a file, rename a file")
+		} else {
+			git(cd, "add", "README")
+			git(cd, "commit", "-q", "-m", "init")
+			git(cd, "checkout", "-q", "-b", "feature")
+			writeFile(filepath.Join(cd, "rules", "0.yml"), scen[si].Rules)
+			writeFile(filepath.Join(cd, ".pint.hcl"), scen[si].Config)
+			git(cd, "add", ".")
+			git(cd, "commit", "-q", "-m", "add rules")
+		}
 		if si%3 == 0 || c05UnownedBrokenRule(scen[si]) {
 			// a second repository whose feature branch has no change at all
 			c2 := filepath.Join(dir, "ci2")
@@ -369,6 +409,9 @@ func runC05(args []string) int {
 			rep.hist("cmd=ci")
 		} else {
 			rep.hist("cmd=lint")
+		}
+		if ru.CI && scen[ru.Scenario].Layout != "" {
+			rep.hist("ci-layout=" + scen[ru.Scenario].Layout)
 		}
 		if ru.TeamCity {
 			rep.hist("flag=teamcity")
